@@ -102,6 +102,10 @@ var c12Bodies = [][2]string{
 	{"empty", ``},
 	{"trailing-garbage", `{"data":{"a":4}} trailing`},
 	{"errors-null-data", `{"data":null,"errors":[{"message":"all failed"}]}`},
+	{"whitespace-newline", "\n"},
+	{"whitespace-mixed", "\t \r\n"},
+	{"leading-whitespace-data", "\r\n\t {\"data\":{\"a\":5}}"},
+	{"leading-whitespace-errors", " \n{\"errors\":[{\"message\":\"ws\"}]}"},
 }
 var c12Statuses = []int{200, 200, 200, 200, 200, 200, 200, 200, 200, 200, 201, 204, 301, 400, 401, 404, 429, 500, 502, 503, 0, 599}
 
